@@ -1009,6 +1009,24 @@ theorem difficulty_factor_bounds (time : Nat) (p : Header) :
     dsimp only
     simp [hu]; omega
 
+/-- the future-block rule as the code computes it: `header.Time > uint64(ctx.BlockTime().Add(15 s).Unix())` on uint64 -/
+def codeFuture (t now : Nat) : Bool := decide (t % two64 > (now + 15) % two64)
+
+/-- **timestamp_rule_uint64_faithful**: for every header time below 2^64 and every block time whose Unix seconds `now` satisfy
+    `0 ≤ now` and `now + 15 < 2^63` (so that `Unix()` of block time + 15 s is a non-negative int64 and `uint64(·)` keeps its value) the
+    code's uint64 comparison is the model's comparison on naturals.  A NEGATIVE Unix block time (before 1970) is outside this range:
+    there `uint64(Unix())` is huge and the unchanged code lets every header pass the future check. -/
+theorem timestamp_rule_uint64_faithful (t now : Nat) (ht : t < two64) (hn : now + 15 < two63) :
+    codeFuture t now = decide (t > now + 15) := by
+  unfold codeFuture
+  have h1 : t % two64 = t := Nat.mod_eq_of_lt ht
+  have h2 : (now + 15) % two64 = now + 15 := Nat.mod_eq_of_lt (by simp only [two63, two64] at *; omega)
+  rw [h1, h2]
+
+/-- the rewrite through `int64(header.Time)` is NOT faithful: at 2^63 it sees a time far in the past -/
+theorem int64_cast_unfaithful : wrapI64 ((two63 : Nat) : Int) < 0 ∧ decide ((two63 : Nat) > 1700000020 + 15) = true := by
+  constructor <;> decide
+
 /-- `beNat []  = 0`: an absent (empty) base fee / difficulty IS the value 0 -/
 theorem beNat_nil : beNat [] = 0 := rfl
 
